@@ -1,5 +1,7 @@
 import CG.Proofs.C08
 import CG.Proofs.C08RoundTrip
+import CG.Proofs.C08RoundTripTs
+import CG.Proofs.C08Lagged
 #print axioms CG.C08.entry_law
 #print axioms CG.C08.toNumpy_refuses_iff
 #print axioms CG.C08.toNetworkx_refuses_iff
@@ -20,3 +22,10 @@ import CG.Proofs.C08RoundTrip
 #print axioms CG.C08.fromNetworkx_toNetworkx
 #print axioms CG.C08.fromGml_toGml
 #print axioms CG.C08.fromSkeleton_skeleton
+#print axioms CG.C08.Ts.fromAdj_of_law_ts
+#print axioms CG.C08.Ts.fromAdj_toNumpy_ts
+#print axioms CG.C08.Ts.fromNetworkx_toNetworkx_ts
+#print axioms CG.C08.Ts.fromSkeleton_skeleton_ts
+#print axioms CG.C08.lagged_refuses_iff
+#print axioms CG.C08.lagged_entry_law
+#print axioms CG.C08.toNumpyByLag_eq
